@@ -5,8 +5,11 @@
                                                   b<hex> message composed in buffer(), then raw_write(buffer()),
                                                   r read, l read_lookahead, h hasNext, k hasNextLookahead
          → one token per op: a|d (accepted/dropped), m<hex>|m- (message returned / nothing), 1|0;
-           `hang` / `oob` ends the line: rtosc_message_length(msg,-1) inside raw_write does not
-           return / reads outside the block (the harness side is then a crash of the line)
+           `oob` ends the line: rtosc_message_length(msg,-1) inside raw_write reads outside the
+           block (the harness side is then a crash of the line); `hang` (it does not return)
+           cannot be printed any more since fix C06-bundle-length-wrap: Props/C06.lean
+           `rawLen_terminates` / `rawLen_bundle_terminates`; such a block now has length 0 and
+           is dropped (`d`)
     conc <maxMsg> <nmsgs> <chunk> <wops> <rops> <sched>
                                              wops: w<hex>,x<hex>,… or -; rops: string over h k r l or -;
                                              sched: string over w r (thread choices) or -
